@@ -3,7 +3,7 @@ Lifetime::as_method_lifetime, Lifetimes::as_method_lifetimes — the use-site <-
 borrow visitors walk is positional and total ('static entries keep their slot)."""
 from kunit import define
 F = "core/src/hir/lifetimes.rs"
-B = "<= 3 lifetimes per path (SmallVec inline capacity 2 is crossed)"
+B = "<= 3 lifetimes per path in the quick tier, <= 4 in the thorough tier (SmallVec inline capacity 2 is crossed)"
 E = [
     ("def_only_pairs_positionally", "lifetimes_def_only yields exactly (use[i], def i) for i in 0..n, in order", [(F, "impl LinkedLifetimes<'def,'tcx>::lifetimes_def_only"), (F, "impl LinkedLifetimes<'def,'tcx>::new")], 1, ["C04"], "bounded", B),
     ("all_pairs_self_first_then_positionally", "lifetimes_all yields the self lifetime (if any) with None, then (use[i], Some(def i))", [(F, "impl LinkedLifetimes<'def,'tcx>::lifetimes_all"), (F, "impl LinkedLifetimes<'def,'tcx>::self_lifetime")], 1, ["C04"], "bounded", B),
@@ -12,6 +12,6 @@ E = [
 ]
 define(globals(), "linked_lifetimes", "core", F, "verif_linked", "linked_lifetimes.rs",
        {"C04": "use-site/def-site lifetime pairs walked by the borrow visitors are positional and total", "C15": "def_to_use's expect is unreachable for in-range def lifetimes"},
-       E, lambda tier: {"N": "3", "U": "6"},
-       ["bounded: at most 3 lifetimes per path; lifetime indices are arbitrary u8 values"],
+       E, lambda tier: ({"N": "4", "U": "7"} if tier == "thorough" else {"N": "3", "U": "6"}),
+       ["bounded: at most 3 (quick) / 4 (thorough) lifetimes per path; lifetime indices are arbitrary u8 values"],
        {"C04": ["BorrowingParamVisitor::visit_param and BorrowingFieldVisitor (BTreeMap-based; out of reach)"], "C15": []}, features="hir")
